@@ -7,6 +7,8 @@ import logging
 logging.getLogger("aioesphomeapi").setLevel(logging.CRITICAL)
 logging.getLogger("aioesphomeapi").propagate = False
 logging.getLogger("aioesphomeapi").addHandler(logging.NullHandler())
+# layer F never awaits ready_future; "Future exception was never retrieved" is expected noise there
+logging.getLogger("asyncio").setLevel(logging.CRITICAL)
 
 _LOOP = None
 
